@@ -6,7 +6,8 @@ import itertools
 import random
 
 DEV_DEFAULTS = dict(ups=[], cyc=0, cap=-1, delay=0, budget=-1, pval=0, bsrc=-1, bsize=0, req={}, pred='all',
-                    vadd=0, qset=0, qinc=False, cycmod=0, offmod=0, foff=0, late=False)
+                    vadd=0, qset=0, qinc=False, cycmod=0, offmod=0, foff=0, late=False,
+                    wodur=0, wocap=0, wocost=0)
 
 
 def norm(cfg):
@@ -36,6 +37,7 @@ def norm(cfg):
     for c in sc:
         if c['between'] and c['t'] not in out['splits']:
             c['between'] = False
+    out['maintcap'] = cfg.get('maintcap', -1)
     out['serial'] = is_serial(out)
     out['trace'] = bool(cfg.get('trace', False))
     return out
@@ -239,6 +241,8 @@ def gen_targeted(rng, count=60):
     out = []
     for i in range(count):
         kind = i % 8
+        if i % 16 == 9:
+            kind = 5
         H = rng.choice([24, 32])
         if kind == 0:        # failure during a maintenance shutdown, part in process or not
             c = rng.choice([4, 6, 8, 10])
@@ -323,6 +327,20 @@ def gen_targeted(rng, count=60):
                       dict(t=rng.choice([9, 12]), call='adjust', dev=1, arg=rng.choice([-1, 1, 2]))]
             cfg = dict(devs=devs, script=script, horizon=H)
             fam = 'empty-source'
+        elif kind == 5 and i % 16 == 13:  # work orders (also two tags on one machine, failures during the order)
+            devs = [src(rng.choice([1, 2]), rng.choice([4, 6, -1]), pval=1),
+                    dev('processor', [1], cyc=rng.choice([2, 3, 6]), wodur=rng.choice([2, 3, 5]), wocap=rng.choice([0, 0, 1]),
+                        wocost=rng.choice([0, 2])),
+                    dev('processor', [2], cyc=rng.choice([1, 2]), wodur=rng.choice([0, 1, 4]), wocap=rng.choice([0, 1, 2]), wocost=1),
+                    dev('sink', [3], cyc=0)]
+            t1 = rng.choice([2, 3, 5])
+            script = [dict(t=t1, call='workorder', dev=2, res='x'),
+                      dict(t=t1 + rng.choice([0, 0, 1]), call='workorder', dev=rng.choice([2, 2, 3]), res='y'),
+                      dict(t=t1 + rng.choice([0, 3, 8]), call='workorder', dev=rng.choice([2, 3]), res='x')]
+            if rng.random() < 0.4:
+                script.append(dict(t=t1 + 1, call='fail', dev=2, arg=rng.choice([0, 1])))
+            cfg = dict(devs=devs, script=script, horizon=H + 8, maintcap=rng.choice([1, 2, -1]))
+            fam = 'workorders'
         else:                # a blocked machine that goes down with a finished part while downstream frees up
             devs = [src(1, rng.choice([3, 5, -1]), pval=1), dev('processor', [1], cyc=rng.choice([1, 2])),
                     dev('processor', [2], cyc=rng.choice([6, 8, 10])), dev('sink', [3], cyc=0)]
